@@ -111,6 +111,7 @@ struct Global {
   std::vector<std::string> trace;
   std::vector<uint32_t> last_len;
   Stats stats;
+  uint64_t run_probes[16] = {};
   pthread_key_t key;
 };
 
@@ -389,6 +390,10 @@ void on_signal(int sig) {
 
 Stats& stats() { return g.stats; }
 int self() { return tls_self ? tls_self->id : -1; }
+bool is_finished(int id) {
+  return id >= 0 && static_cast<size_t>(id) < g.threads.size() && g.threads[static_cast<size_t>(id)]->state == SimThread::FINISHED;
+}
+uint64_t run_probe_count(int probe) { return g.run_probes[probe & 15]; }
 bool active() { return g.active; }
 uint64_t stamp() { return ++g.step; }
 void note(uint64_t v) { g.h.add(v); }
@@ -412,6 +417,9 @@ void die(const std::string& vclass, const std::string& detail) {
   J fl = J::arr();
   for (auto& f : g.fired) { J fj = J::arr(); fj.push(f.thread).push(f.op).push(f.kind).push(f.k).push(f.site); fl.push(fj); }
   j.set("fired", fl);
+  J rp = J::arr();
+  for (int i = 0; i < 10; i++) rp.push(g.run_probes[i]);
+  j.set("run_probes", rp);
   if (g.tracing) {
     J tr = J::arr();
     size_t from = g.trace.size() > 400 ? g.trace.size() - 400 : 0;
@@ -463,6 +471,7 @@ void run_begin(const Case& c, const std::vector<uint32_t>* measured_len) {
   g.h = Hasher();
   g.c = &c;
   g.realised.clear(); g.fired.clear(); g.trace.clear();
+  for (auto& p : g.run_probes) p = 0;
   g.explicit_sched = c.explicit_schedule;
   g.sched_map.clear();
   for (auto& e : c.sched) g.sched_map[{e.thread, e.op, e.hook}] = e.to;
@@ -686,6 +695,7 @@ void unodb_verif_probe(int probe) noexcept {
   auto* st = tls_self;
   if (!st || !g.active || !st->in_sim) return;
   g.stats.probes[probe & 15]++;
+  g.run_probes[probe & 15]++;
   g.h.add(0xABCD0000u + static_cast<unsigned>(probe));
   if (g.tracing) g.trace.push_back("probe " + std::to_string(probe) + " t" + std::to_string(st->id));
 }
